@@ -55,7 +55,8 @@ def pIPv4 (s : String) : Option Nat :=
 def pCPorts (s : Sexp) : Option (List CPort) :=
   s.args.mapM fun c => match c with
     | .list [.atom nm, .atom pr, n] => do
-        some ⟨if nm == "-" then "" else nm, ← Proto.ofStr? pr, ← n.int?⟩
+        -- `-`: the manifest gives no protocol; a container port without one is TCP (`ConvertPodNamedPort`, `PodExposedTCPConnections`)
+        some ⟨if nm == "-" then "" else nm, ← (if pr == "-" then some Proto.TCP else Proto.ofStr? pr), ← n.int?⟩
     | _ => none
 
 def pNPPeer (s : Sexp) : Option NPPeer :=
